@@ -1,8 +1,9 @@
 (* Specification side of C03, unbounded part: structured programs made of straight-line statements (SpecLingo.stmt)
-   and  if <expr> then ... end if  with any expression as condition, nested to any depth.  A program is a
+   and  if <expr> then ... [else ...] end if  with any expression as condition, nested to any depth.  A program is a
    sequence: PNil, a statement followed by the rest, or an if (condition, body, rest).
    Director's scheme for an if: the condition, a conditional forward jump over the body (offset relative to the
-   jump's own address), the body. *)
+   jump's own address), the body; with an else part the then part ends in an unconditional forward jump over it and
+   the conditional jump goes to its first instruction. *)
 From Coq Require Import ZArith List Bool String.
 From Coq.Strings Require Import Byte.
 From DRX Require Import Py.PyBytes Py.PyStr Py.PyString Model.LingoAst Model.LingoGen Model.LingoOps Spec.SpecLingo Spec.SpecFlow
@@ -14,19 +15,23 @@ Open Scope Z_scope.
 Inductive prog :=
 | PNil
 | PStmt (s : stmt) (rest : prog)
-| PIf (c : expr) (body : prog) (rest : prog).
+| PIf (c : expr) (body : prog) (rest : prog)
+| PIfE (c : expr) (body ebody : prog) (rest : prog).
 
 Fixpoint compile_p (p : prog) : bytes :=
   match p with
   | PNil => []
   | PStmt s r => compile_s s ++ compile_p r
   | PIf c a r => compile_e c ++ jz (3 + zlen (compile_p a)) ++ compile_p a ++ compile_p r
+  | PIfE c a eb r =>
+    compile_e c ++ jz (3 + zlen (compile_p a) + 3) ++ compile_p a ++ jmp (3 + zlen (compile_p eb)) ++ compile_p eb ++ compile_p r
   end.
 Fixpoint ninstr_p (p : prog) : nat :=
   match p with
   | PNil => O
   | PStmt s r => (ninstr_s s + ninstr_p r)%nat
   | PIf c a r => (ninstr c + (1 + (ninstr_p a + ninstr_p r)))%nat
+  | PIfE c a eb r => (ninstr c + (1 + (ninstr_p a + (1 + (ninstr_p eb + ninstr_p r)))))%nat
   end.
 
 Fixpoint wf_p (en : env) (p : prog) : Prop :=
@@ -34,6 +39,8 @@ Fixpoint wf_p (en : env) (p : prog) : Prop :=
   | PNil => True
   | PStmt s r => wf_s en s /\ wf_p en r
   | PIf c a r => wf_e en c /\ a <> PNil /\ 3 + zlen (compile_p a) < 65536 /\ wf_p en a /\ wf_p en r
+  | PIfE c a eb r => wf_e en c /\ a <> PNil /\ eb <> PNil /\ 3 + zlen (compile_p a) + 3 < 65536 /\ 3 + zlen (compile_p eb) < 65536 /\
+                     wf_p en a /\ wf_p en eb /\ wf_p en r
   end.
 
 (* the statements the stack machine leaves, as positioned items, when the code of p starts at pc *)
@@ -45,6 +52,11 @@ Fixpoint items (en : env) (props : list string) (pc : Z) (p : prog) : list item 
     let pj := pc + zlen (compile_e c) in
     let ea := pj + 3 + zlen (compile_p a) in
     IIf pj (reify_e en pc c) ea (items en props (pj + 3) a) :: items en props ea r
+  | PIfE c a eb r =>
+    let pj := pc + zlen (compile_e c) in
+    let jp := pj + 3 + zlen (compile_p a) in
+    let je := jp + 3 + zlen (compile_p eb) in
+    IIfE pj (reify_e en pc c) (jp + 3) (items en props (pj + 3) a) jp je (items en props (jp + 3) eb) :: items en props je r
   end.
 
 (* the decompiled program: what the emitted text is printed from *)
